@@ -11,8 +11,8 @@ import (
 
 // Keys is the shared key alphabet: small, so random documents hit, but covering dot-illegal,
 // escaped, non-ASCII and astral keys.
-var Keys = []string{"a", "b", "c", "d", "aa", "0", "a b", "é", "😀", "a.b", "", "'", "\"", "x\\y", "-", "a\tb", "\n", "é.b", "名 前", "ü-ö$x", "ab", "’", "A", "x\\'y", "\\\"", "\\", "�A", "�", "100%", "%s"}
-var keyWeights = []int{12, 10, 8, 4, 3, 3, 2, 2, 1, 2, 1, 1, 1, 1, 1, 1, 1, 2, 1, 1, 2, 1, 1, 1, 1, 1, 1, 1, 1, 1}
+var Keys = []string{"a", "b", "c", "d", "aa", "0", "a b", "é", "😀", "a.b", "", "'", "\"", "x\\y", "-", "a\tb", "\n", "é.b", "名 前", "ü-ö$x", "ab", "’", "A", "x\\'y", "\\\"", "\\", "�A", "�", "100%", "%s", "*", "@"}
+var keyWeights = []int{12, 10, 8, 4, 3, 3, 2, 2, 1, 2, 1, 1, 1, 1, 1, 1, 1, 2, 1, 1, 2, 1, 1, 1, 1, 1, 1, 1, 1, 1, 1, 1}
 
 var keyGen = weighted(Keys, keyWeights)
 
@@ -510,6 +510,14 @@ func (g *G) variantOf(q *Query) *Query {
 			c.P.Steps = append([]Step{{Kind: KName, Key: g.key(), Not: NSQ}}, c.P.Steps...)
 		}
 	case QCmp:
+		if g.chance("guard", 20) {
+			// the existence test of an operand the comparison reads ("@.p && @.p == $.q")
+			for _, o := range []*Operand{c.A, c.B} {
+				if !o.IsLit && o.P != nil && o.P.Root == RootAt {
+					return &Query{Kind: QExists, P: o.P}
+				}
+			}
+		}
 		switch g.intn("variantkind", 3) {
 		case 0:
 			for _, o := range []*Operand{c.A, c.B} {
